@@ -33,7 +33,7 @@ and “Parameters”: Pass State, Task State, and Parallel State.
 import sys
 assert sys.version_info >= (3, 0)  # Bomb out if not running Python3
 
-import hashlib, random, re, uuid
+import copy, hashlib, random, re, uuid
 
 """
 ASL paths use JSONPath.
@@ -223,7 +223,12 @@ def apply_resultpath(input, result, path="$"):
             r"\[\s*('[^']*'|\"[^\"]*\")\s*\]|([^$.[\]]+)", path
         )
     ]
-    return update_path(input, matches, result)
+    """
+    Place a copy of the result. The result may be (part of) the input itself,
+    e.g. a Pass state with no Result, and embedding that by reference would
+    create a circular structure that can no longer be serialised to JSON.
+    """
+    return update_path(input, matches, copy.deepcopy(result))
 
 def evaluate_payload_template(input, context, template):
     """
